@@ -1194,7 +1194,7 @@ def main(argv):
     if a.replay:
         build.warm(("plain",))
         return runner.do_replay(PID, replay_case, a.replay)
-    chk = Check(PID, "exploration", RULE, ASSUMPTIONS)
+    chk = Check(PID, "fault_enumeration", RULE, ASSUMPTIONS)
     nm = a.modules or chk.pick(32, 96)
     nc = a.values or chk.pick(900, 4000)
     _, _, bt = build.warm(("plain",))
